@@ -170,3 +170,53 @@ def CANDIDATES(func: str):
             yield [list(sel[1:]) + [0] * 5]
         else:
             yield [list(sel) + [0] * 4]
+
+
+TOP_MEMBERS = [None, ("attr", "n_x"), ("method", "n_x"), ("method", "getX"), ("attr", "get_x")]
+BASE_MEMBERS = [("method", "n_x"), ("property", "n_x"), ("method", "get_x"), ("method", "getX")]
+
+
+def relational_inherited(sel: List[int]) -> bool:
+    """Members inherited from a private ancestor: the set of recovered Python names of the public subclass is the same
+    under both naming settings (which members are inlined must not depend on how names are spelled in the stub).
+
+    pre: len(sel) == SEL_LEN and fixed(sel)
+    post: _
+    """
+    try:
+        cur = Cur()
+        top = TOP_MEMBERS[rd(sel, cur, len(TOP_MEMBERS))]
+        base = [BASE_MEMBERS[i] for i in range(len(BASE_MEMBERS)) if rd(sel, cur, 2) == 1]
+        if not base:
+            raise OutOfRange
+    except OutOfRange:
+        return True
+    from vlib.gapi import INT, mk_api, mk_attr, mk_class, mk_function, mk_module, self_param
+
+    def build():
+        api = mk_api()
+        m = mk_module(api, "pkg/m")
+        b = mk_class(api, m, "_Base", public=False)
+        for kind, name in base:
+            mk_function(api, b, name, params=[self_param()], results=[("result_1", INT)], prop=kind == "property", public=False)
+        t = mk_class(api, m, "Top", supers=["pkg.m._Base"])
+        if top is not None:
+            if top[0] == "attr":
+                mk_attr(api, t, top[1], INT)
+            else:
+                mk_function(api, t, top[1], params=[self_param()], results=[("result_1", INT)])
+        return api, m
+
+    def members(convert):
+        api, m = build()
+        text = SG.StubsStringGenerator(api=api, convert_identifiers=convert)(m)[0]
+        f = parse(text)
+        d = [x for x in f.decls if x.pyname == "Top"][0]
+        return sorted(mm.pyname for mm in d.members)
+
+    off = members(False)
+    on = members(True)
+    note("oracle")
+    if off != on:
+        return judge(["relational:inherited-member-set-depends-on-naming-setting"])
+    return True
